@@ -228,11 +228,13 @@ def run(ctx):
             do(ctx, 'C17.torch_copy', [kind, rng.randint(1, 3), rng.randrange(10 ** 6)])
         for what in ['rotation_map', 'identity_map', 'zero_state', 'mixed_state', 'stabilizer_state', 'rotation_gate', 'pauli']:
             do(ctx, 'C17.ctor_fresh', ['torch', what, rng.randint(1, 3), rng.randrange(10 ** 6)])
-    from props.C15 import rexpr, has
+    from props.C15 import rexpr, has, cfrac, COEFS
     for it in range(int(40 * B)):
         n = rng.randint(1, 3)
         e = rexpr(rng, n, rng.randint(1, 3), ['pauli', 'poly', 'poly'])
         do(ctx, 'C15.torch_expr', [n, e], nontrivial=('b15', it) if has(e, (4, 5, 6)) else None)
+        e2 = [4, e, [2, cfrac(rng.choice(COEFS)), [0, [0, [[0] * (2 * n), rng.randint(0, 3)]]]]]
+        do(ctx, 'C15.torch_expr', [n, e2], nontrivial=('b15i', it))
     for it in range(int(20 * B)):
         n = rng.choice([6, 13, 14, 16, 20])
         site = lambda q, k: [(k >> 1) & 1 if j == 2 * q else (k & 1 if j == 2 * q + 1 else 0) for j in range(2 * n)]
